@@ -5,6 +5,7 @@ header fields are followed as values."""
 from __future__ import annotations
 
 import re
+import ast
 
 from ..models import ModelEval, Raised, Marker
 from ..peval import Model, Unsupported, ProgramRaised
@@ -870,6 +871,7 @@ def check_leaf_rule(run, tree):
 
 
     check_conditions_contract(run, tree)
+    check_level_header_history(run, tree)
 
 
 class BufTok(Sym):
@@ -878,6 +880,62 @@ class BufTok(Sym):
     def __init__(self, v):
         Sym.__init__(self, "BUF:" + v)
         self._array = self.values = self.magnitude = Sym("RAW:" + v)
+
+
+def check_level_header_history(run, tree):
+    """the per-level geometry of the AMR reader over a history: the reader object lives as long as the dataset, initialize() gives it a fresh zeroed
+    child-offset table at every load, and the level loop of every load (and of every cpu file) starts again at the coarsest level.  After each
+    read_level_header(ilevel) the table holds the 8 offsets (+-1/2 cell) of THAT level - also when the same level was the last one handled before"""
+    ci = tree.cls(AMR)
+    m = tree.method(ci, "read_level_header")
+    init = tree.method(ci, "initialize")
+    run.analysed(m)
+    construct = AMR + ".read_level_header[history: levels 0, 1 | new load | level 0 | new file | level 0, 1]"
+    try:
+        fold = Fold(None)
+        hooks = layout_hooks(fold)
+        _, r = new_reader(tree, AMR, hooks, {"level": (True, "i")})
+        # does initialize() replace the table? (the premise of the history; if the table is no longer re-created there, nothing is reset here either)
+        resets = init is not None and any(isinstance(n, ast.Assign) and any(isinstance(t, ast.Attribute) and t.attr == "xcent" for t in n.targets) for n in ast.walk(init.node))
+        problems = []
+
+        def fresh():
+            r._attrs["xcent"] = NdBuf("xcent")
+
+        def expect(ilevel, when):
+            buf = r._attrs.get("xcent")
+            dx = 0.5 ** (ilevel + 1)
+            writes = {}
+            for idx, val in (buf.writes if isinstance(buf, NdBuf) else []):
+                key = tuple(origin_of(i) if not isinstance(i, int) else i for i in (idx if isinstance(idx, tuple) else (idx,)))
+                writes[key] = val
+            for ind in range(8):
+                for d in range(3):
+                    want = (((ind >> d) & 1) - 0.5) * dx
+                    got = writes.get((ind, d))
+                    if not (isinstance(got, (int, float)) and abs(got - want) < 1e-12):
+                        problems.append("%s: offset of child %d along axis %d is %r (required %r)" % (when, ind, d, got if got is not None else "not written (0)", want))
+                        return
+        fresh()
+        for il in (0, 1):
+            call(tree, hooks, ci, r, "read_level_header", il, 8)
+            if il == 1:
+                expect(1, "first load, level 2")
+        if resets:
+            fresh()            # a new load: initialize() re-creates the table
+        call(tree, hooks, ci, r, "read_level_header", 1, 8)
+        expect(1, "second load starting at the level the first one ended with")
+        if resets:
+            fresh()
+        call(tree, hooks, ci, r, "read_level_header", 0, 8)
+        call(tree, hooks, ci, r, "read_level_header", 0, 8)   # next cpu file, same level again
+        expect(0, "same level in the next cpu file")
+        run.ob(construct, not problems, m.where(), "; ".join(problems[:2]) or "the child offsets are those of the level just announced at every step of the history",
+               "two consecutive loads that both stop at the same level return every cell of that level at the centre of its parent (offsets left at zero)")
+    except (Raised, ProgramRaised) as e:
+        run.violated(construct, m.where(), "raises %s" % e, "any load")
+    except ERR as e:
+        run.unresolved(construct, m.where(), "cannot fold: %s" % e)
 
 
 def check_conditions_contract(run, tree):
